@@ -21,3 +21,14 @@ CHECKS['C05'] = dict(
     text='Decides the table/grammar agreement exhaustively (94 terminals) and the layout transparency and header-stack behaviour on 700 abstract contexts; the stack discipline for arbitrarily deep nesting is not decided.',
     ref='DESIGN.md section 3 C05',
     note='Trusted: CPython ast, abstract evaluator, adjacency fixpoint. The decision expression is located in Lexer._token by a backward slice from the branch that calls _read_regex(); if that shape disappears the check stops with ANALYSIS-ERROR.')
+
+CHECKS['C11'] = dict(
+    technique='static analysis: abstract interpretation of every parser action per production alternative (typestate: constructed node must reach setpos), index/extent/nullability rules over the grammar, abstract evaluation of findpos/lookup_colno',
+    text='Decides, for all ~230 node construction sites and paths, that the node is positioned, that the index names a slot that always carries a token of the node\'s own extent, and that recorded literal positions name slots with that text. Agreement of offset/line/column under ES5 counting is split with C06/C04.',
+    ref='DESIGN.md section 3 C11',
+    note='Trusted: CPython ast, the action interpreter and skeleton alignment of /verif/engine; ply yacc tracking semantics (p.lexpos(n) of a nonterminal is its first token) assumed.')
+CHECKS['C08'] = dict(
+    technique='static analysis: token-map model of Node.setpos per production x definition emission alignment (which map entry each Text/Operator/;{} emission looks up), abstract evaluation of getpos and of the token/layout handlers',
+    text='Decides for all ~350 explicit-position emissions of the definitions that the looked-up map entry is the aligned slot; handlers are decided by exhaustive decision tables. Does not decide the source-file stack nor elision comma runs.',
+    ref='DESIGN.md section 3 C08',
+    note='Trusted: action interpreter, skeleton alignment, abstract evaluator; walker.walk semantics (digest-guarded by C01/C02).')
